@@ -1,7 +1,7 @@
 //! Counting allocator: thread-local live/peak byte counters, largest single allocation, count of
 //! large allocations, and a watch table inspected inside `dealloc` (for C20).
 use std::alloc::{GlobalAlloc, Layout, System};
-use std::cell::Cell;
+use std::cell::{Cell, RefCell};
 
 pub struct Counting;
 thread_local! {
@@ -14,27 +14,61 @@ thread_local! {
     // watch table: up to 64 (ptr, len) ranges; on dealloc of a block containing ptr, record whether range is all zero
     static WATCH: Cell<[(usize, usize, u8); 64]> = const { Cell::new([(0, 0, 0); 64]) };
 }
+/// Journal of released blocks (first JLEN bytes of each block of 16..=4096 bytes), filled inside `dealloc`/`realloc`
+/// while switched on: lets a check ask "was a block holding these bytes released during that call?".
+pub const JLEN: usize = 128; pub const JMAX: usize = 48;
+pub struct Journal { pub n: usize, pub overflow: bool, pub len: [usize; JMAX], pub data: [[u8; JLEN]; JMAX] }
+thread_local! {
+    static JOURNAL_ON: Cell<bool> = const { Cell::new(false) };
+    static JOURNAL: RefCell<Journal> = const { RefCell::new(Journal { n: 0, overflow: false, len: [0; JMAX], data: [[0; JLEN]; JMAX] }) };
+    /// While set, byte buffers (alignment-1 requests) are handed out at odd addresses: a conforming allocator
+    /// owes such a request no more than alignment 1.
+    static MISALIGN: Cell<bool> = const { Cell::new(false) };
+}
+pub fn journal_start() { JOURNAL.with(|j| { let mut j = j.borrow_mut(); j.n = 0; j.overflow = false; }); JOURNAL_ON.with(|c| c.set(true)); }
+/// Stop journaling; returns the released blocks' leading bytes.
+pub fn journal_stop() -> (Vec<Vec<u8>>, bool) { JOURNAL_ON.with(|c| c.set(false)); JOURNAL.with(|j| { let j = j.borrow(); ((0..j.n).map(|i| j.data[i][..j.len[i]].to_vec()).collect(), j.overflow) }) }
+pub fn misalign(on: bool) { MISALIGN.with(|c| c.set(on)); }
+fn misalign_on(l: &Layout) -> bool { l.align() == 1 && l.size() > 0 && MISALIGN.try_with(|c| c.get()).unwrap_or(false) }
+fn shifted(l: &Layout) -> Layout { Layout::from_size_align(l.size() + 1, 2).unwrap() }
+fn journal(base: usize, size: usize) {
+    if size < 16 || size > 4096 || !JOURNAL_ON.try_with(|c| c.get()).unwrap_or(false) { return; }
+    let _ = JOURNAL.try_with(|j| if let Ok(mut j) = j.try_borrow_mut() { if j.n < JMAX { let n = size.min(JLEN); let i = j.n; let s = unsafe { std::slice::from_raw_parts(base as *const u8, n) }; j.data[i][..n].copy_from_slice(s); j.len[i] = n; j.n += 1; } else { j.overflow = true; } });
+}
 pub const W_EMPTY: u8 = 0; pub const W_ARMED: u8 = 1; pub const W_ZERO: u8 = 2; pub const W_NONZERO: u8 = 3;
 
 unsafe impl GlobalAlloc for Counting {
     unsafe fn alloc(&self, l: Layout) -> *mut u8 {
+        if misalign_on(&l) { let p = System.alloc(shifted(&l)); if p.is_null() { return p; } on_alloc(l.size()); return p.add(1); }
         let p = System.alloc(l);
         if !p.is_null() { on_alloc(l.size()); }
         p
     }
     unsafe fn alloc_zeroed(&self, l: Layout) -> *mut u8 {
+        if misalign_on(&l) { let p = System.alloc_zeroed(shifted(&l)); if p.is_null() { return p; } on_alloc(l.size()); return p.add(1); }
         let p = System.alloc_zeroed(l);
         if !p.is_null() { on_alloc(l.size()); }
         p
     }
     unsafe fn dealloc(&self, p: *mut u8, l: Layout) {
-        inspect(p as usize, l.size());
+        inspect(p as usize, l.size()); journal(p as usize, l.size());
         let _ = LIVE.try_with(|c| c.set(c.get() - l.size() as isize));
+        // blocks handed out at an odd address came from the shifted path (the system allocator never returns one)
+        if l.align() == 1 && (p as usize) & 1 == 1 { return System.dealloc(p.sub(1), shifted(&l)); }
         System.dealloc(p, l)
     }
     unsafe fn realloc(&self, p: *mut u8, l: Layout, new: usize) -> *mut u8 {
         // a shrinking/moving realloc releases the old block: inspect it first
-        inspect(p as usize, l.size());
+        inspect(p as usize, l.size()); journal(p as usize, l.size());
+        if l.align() == 1 && ((p as usize) & 1 == 1 || misalign_on(&l)) {
+            let nl = Layout::from_size_align(new, 1).unwrap();
+            let q = if misalign_on(&nl) { let b = System.alloc(shifted(&nl)); if b.is_null() { b } else { b.add(1) } } else { System.alloc(nl) };
+            if q.is_null() { return q; }
+            std::ptr::copy_nonoverlapping(p, q, l.size().min(new));
+            let _ = LIVE.try_with(|c| c.set(c.get() - l.size() as isize)); on_alloc(new);
+            if (p as usize) & 1 == 1 { System.dealloc(p.sub(1), shifted(&l)); } else { System.dealloc(p, l); }
+            return q;
+        }
         let q = System.realloc(p, l, new);
         if !q.is_null() { let _ = LIVE.try_with(|c| c.set(c.get() - l.size() as isize)); on_alloc(new); }
         q
